@@ -290,6 +290,16 @@ def render_back(ctx, entry, v, rep, what, wire=True):
     c1, _, e1 = guarded(lambda: v.to_text())
     if report(ctx, entry + ".to_text", c1, rep, f"{what}: to_text of the parsed value raised {e1!r}"):
         return
+    # the documented text styles are part of "can be rendered to text"
+    for kw in ({"truncate_crypto": True}, {"want_generic": True}, {"txt_is_utf8": True}, {"base64_chunk_size": 0, "hex_chunk_size": 0}):
+        try:
+            cs, _, es = guarded(lambda: v.to_text(**kw))
+        except TypeError:
+            break
+        if cs == "FOREIGN:TypeError" and "unexpected keyword" in str(es):
+            break  # this kind of value has no styled to_text
+        if report(ctx, entry + ".to_text.styled", cs, rep, f"{what}: to_text({kw}) of the parsed value raised {es!r}"):
+            return
     if wire:
         c2, _, e2 = guarded(lambda: v.to_wire())
         report(ctx, entry + ".to_wire", c2, rep, f"{what}: to_wire of the parsed value raised {e2!r}")
@@ -774,6 +784,14 @@ def generate(ctx: Ctx, scale: int, rng):
                 lines.append(mutate_text(rng, ln) if m == 1 else ln)
         if rng.chance(1, 2):
             lines.insert(0, "@ 300 IN SOA ns. admin. 1 2 3 4 5")
+        if rng.chance(1, 5):
+            # $UNICODE selects the IDNA codec and the TXT style used when the zone is written again; ACE labels that
+            # decode to anything at all (lone surrogates, controls, dots) must not break Zone.to_text()
+            lines.insert(rng.below(len(lines) + 1), "$UNICODE " + rng.choice(["2008", "2003", "TXT", "2008 TXT", "2003 TXT", "1999", ""]))
+            for _ in range(rng.choice([1, 2, 3])):
+                ace = "xn--" + "".join(rng.choice("abcdefghijklmnopqrstuvwxyz0123456789-") for _ in range(rng.choice([1, 3, 5, 9, 12, 20])))
+                ace = rng.choice([ace, ace, "xn--8g0cb0num", "xn--bcher-kva", "XN--BCHER-KVA", "xn--", "xn--a", "xn--0ca.xn--0ca"])
+                lines.append(f"{ace} 300 IN {rng.choice(['A 10.0.0.1', 'TXT \"caf\\195\\169\"', 'TXT \"\\255\\254\"', 'CNAME ' + ace + '.example.'])}")
         t = "\n".join(lines) + rng.choice(["\n", "", "\n\n"])
         c = {"kind": "zone.text", "text": t, "origin": 0 if rng.chance(1, 6) else 1, "relativize": rng.below(2), "check_origin": rng.below(2)}
         ctx.case(("zt", t, c["origin"], c["relativize"], c["check_origin"]), sample=c if len(t) < 120 else None)
